@@ -150,7 +150,7 @@ func (x *lbExt) checkWake() {
 		// while the RPC was waiting
 		for _, pub := range x.pubs {
 			if pub.aSeq > c.startSeq && pub.bSeq != 0 && pub.bSeq < c.picks[0].seq {
-				if c.picks[0].t.After(pub.bT.Add(lbSlack)) && !pub.bT.Add(lbSlack).After(tEnd) {
+				if !x.storm && c.picks[0].t.After(pub.bT.Add(lbSlack)) && !pub.bT.Add(lbSlack).After(tEnd) {
 					e.Violate("blocked_pick_not_woken", "rpc %d was waiting for a picker; generation %d was published at %v but its first Pick came only at %v", c.id, pub.gen, pub.bT.Sub(x.t0), c.picks[0].t.Sub(x.t0))
 				}
 				break
@@ -170,10 +170,10 @@ func (x *lbExt) checkWake() {
 			inTime := first != nil && !first.bT.Add(lbSlack).After(tEnd)
 			if k+1 < len(c.picks) {
 				e.Probe("blocked_pick_woken_by_picker")
-				if c.picks[k+1].t.After(tEnd.Add(lbSlack)) {
+				if !x.storm && c.picks[k+1].t.After(tEnd.Add(lbSlack)) {
 					e.Violate("blocked_pick_ctx_late", "rpc %d: pick %d blocked; the RPC's context ended at %v but the pick went on and called Pick again at %v", c.id, pk.id, tEnd.Sub(x.t0), c.picks[k+1].t.Sub(x.t0))
 				}
-				if inTime && c.picks[k+1].t.After(first.bT.Add(lbSlack)) {
+				if !x.storm && inTime && c.picks[k+1].t.After(first.bT.Add(lbSlack)) {
 					e.Violate("blocked_pick_not_woken", "rpc %d: pick %d blocked on picker generation %d; generation %d was published at %v but the next Pick came only at %v", c.id, pk.id, pk.gen, first.gen, first.bT.Sub(x.t0), c.picks[k+1].t.Sub(x.t0))
 				}
 				continue
@@ -186,7 +186,7 @@ func (x *lbExt) checkWake() {
 			if !c.cancelAt.IsZero() && !c.cancelAt.After(tEnd) {
 				e.Probe("blocked_pick_cancelled")
 			}
-			if c.st.finishedAt.After(tEnd.Add(lbSlack)) {
+			if !x.storm && c.st.finishedAt.After(tEnd.Add(lbSlack)) {
 				e.Violate("blocked_pick_ctx_late", "rpc %d: blocked in pick %d when its context ended, but the call returned %v later", c.id, pk.id, c.st.finishedAt.Sub(tEnd))
 			}
 		}
